@@ -165,14 +165,18 @@ PROPS = {
         "inventory": LIFECYCLE_FUNCS + ["Request.StartTLS", "ResponseWriter.Write", "sites.connwriter"],
         "streams": [{"stream": "c08", "n_quick": 40, "n_thorough": 2000, "timeout_quick": 900, "timeout_thorough": 6000},
                     # connections whose handlers are stuck writing when the read loop has ended (corpus) and Stop comes
-                    {"stream": "c11", "n_quick": 8, "n_thorough": 100, "timeout_quick": 900, "timeout_thorough": 6000}],
+                    {"stream": "c11", "n_quick": 8, "n_thorough": 100, "timeout_quick": 900, "timeout_thorough": 6000},
+                    # the Unbind ending with a slow unbind handler (corpus) and its variations
+                    {"stream": "c10", "n_quick": 6, "n_thorough": 200, "timeout_quick": 900, "timeout_thorough": 6000}],
         "trusted": RUNTIME_TRUST,
         "assumptions": ["partial: goroutine and descriptor accounting is observed by the oracle only"],
     },
     "C09": {
         "lean": ["GldapModel.Props.C09"], "audit": "GldapModel/Audit/C09.lean",
-        "inventory": ["Server.Run", "newConn", "Request.ConnectionID"],
-        "streams": [{"stream": "c08", "n_quick": 40, "n_thorough": 2000, "timeout_quick": 900, "timeout_thorough": 6000}],
+        "inventory": ["Server.Run", "newConn", "Request.ConnectionID", "Request.StartTLS", "conn.initConn"],
+        "streams": [{"stream": "c08", "n_quick": 40, "n_thorough": 2000, "timeout_quick": 900, "timeout_thorough": 6000},
+                    # requests before and after a StartTLS upgrade report one ConnectionID
+                    {"stream": "c13", "n_quick": 6, "n_thorough": 100, "timeout_quick": 900, "timeout_thorough": 6000}],
         "trusted": RUNTIME_TRUST,
         "assumptions": ["scope: one Run per Server (the counter is local to Run)"],
     },
